@@ -171,6 +171,9 @@ func (f *File) Sexp() *Node {
 	for _, e := range f.Elems {
 		elems.Kids = append(elems.Kids, e.Sexp())
 	}
+	if f.DeclPkg != "" {
+		return L("j5s", S(f.Path), imps, elems, L("decl", S(f.DeclPkg)))
+	}
 	return L("j5s", S(f.Path), imps, elems)
 }
 
@@ -291,6 +294,13 @@ func (f *Field) Sexp() *Node {
 	case FObject:
 		return L("object", f.Ref.Sexp(), B(f.Flatten), r)
 	case FOneof, FEnum:
+		if f.Kind == FEnum && f.HasList {
+			lr := L("lr")
+			for _, v := range f.ListFilters {
+				lr.Kids = append(lr.Kids, S(v))
+			}
+			return L(f.Kind, f.Ref.Sexp(), r, lr)
+		}
 		return L(f.Kind, f.Ref.Sexp(), r)
 	case FArray, FMap:
 		return L(f.Kind, f.Items.Sexp(), r)
@@ -501,6 +511,16 @@ func decFile(n *Node) *File {
 		}
 		for _, e := range a[2].expect("elems", 0) {
 			f.Elems = append(f.Elems, DecElem(e))
+		}
+		switch len(a) {
+		case 3:
+		case 4:
+			f.DeclPkg = a[3].expect("decl", 1)[0].Str()
+			if f.DeclPkg == "" || len(a[3].Kids) != 2 {
+				bad("bad decl")
+			}
+		default:
+			bad("(j5s …) takes 3 or 4 args")
 		}
 		return f
 	}
@@ -742,7 +762,14 @@ func decField(n *Node) *Field {
 		f.Flatten = a[1].Bool()
 		f.Rules = decRules(a[2])
 	case FOneof, FEnum:
-		need(2)
+		if k == FEnum && len(a) == 3 {
+			f.HasList = true
+			for _, v := range a[2].expect("lr", 0) {
+				f.ListFilters = append(f.ListFilters, v.Str())
+			}
+		} else {
+			need(2)
+		}
 		f.Ref = decTRef(a[0])
 		f.Rules = decRules(a[1])
 	case FArray, FMap:
